@@ -141,10 +141,15 @@ type Result struct {
 	Panic       *hx.Failure
 	Global      parser.Scope
 	AST         *parser.ASTNode
+	// second evaluation of the same tree (Options.Env2)
+	Again bool
+	Val2  interface{}
+	Err2  error
 }
 
 // Options for Run.
 type Options struct {
+	Env2     map[string]interface{} // not nil: the SAME tree is evaluated a second time in a fresh global scope holding these values (after an evaluation with Env)
 	Env      map[string]interface{}
 	Imports  map[string]string
 	Debugger func(erp *interpreter.ECALRuntimeProvider, vs parser.Scope) util.ECALDebugger
@@ -208,6 +213,14 @@ func Run(src string, o Options) *Result {
 			erp.Debugger = o.Debugger(erp, vs)
 		}
 		res.Val, res.Err = ast.Runtime.Eval(vs, make(map[string]interface{}), erp.NewThreadID())
+		if o.Env2 != nil {
+			vs2 := scope.NewScope(scope.GlobalScope)
+			for k, v := range o.Env2 {
+				vs2.SetValue(k, v)
+			}
+			res.Val2, res.Err2 = ast.Runtime.Eval(vs2, make(map[string]interface{}), erp.NewThreadID())
+			res.Again = true
+		}
 	})
 	rec.mu.Lock()
 	res.Trace = rec.Items
